@@ -235,12 +235,88 @@ def tls_shard(sh):
             pass
         hello = outg.read()
         kinds = ["clear-text", "clear-text-rst", "connect-close", "connect-rst", "hello-cut", "hello-cut-rst", "garbage", "tls-inner-hostile",
-                 "hello-then-close"]
+                 "hello-then-close", "served-then-lingers"]
+
+        def tcp_closed(t, wait):
+            """Has the server's FIN (or a reset) arrived on the TCP connection under this TLS socket?"""
+            end = time.monotonic() + wait
+            while True:
+                raw = socket.socket(fileno=os.dup(t.fileno()))
+                try:
+                    raw.settimeout(max(0.05, end - time.monotonic()))
+                    d = raw.recv(1, socket.MSG_PEEK)
+                except socket.timeout:
+                    return False
+                except OSError:
+                    return True
+                finally:
+                    raw.close()
+                if d == b"":
+                    return True
+                try:                # TLS records not consumed yet (alerts, tickets): let the TLS layer take them
+                    t.settimeout(1)
+                    t.recv(65536)
+                except (OSError, ssl.SSLError):
+                    pass
+                if time.monotonic() > end:
+                    return False
+
+        def lingerers():
+            """Clients that were served their last response (Connection: close) and then just keep their socket: the server is
+            the side that closes, whatever the peer does afterwards - and it goes on serving the others meanwhile."""
+            held = []
+            for _ in range(5):
+                try:
+                    t = ctx.wrap_socket(socket.create_connection(srv.addr, 5))
+                    t.settimeout(8)
+                    t.sendall(b"GET /pid HTTP/1.1\r\nHost: l\r\nConnection: close\r\n\r\n")
+                    buf = b""
+                    try:
+                        while True:
+                            d = t.recv(65536)
+                            if not d:
+                                break
+                            buf += d
+                    except (OSError, ssl.SSLError):
+                        pass
+                    if buf.startswith(b"HTTP/1.1 200") and buf.endswith(b"|END"):
+                        held.append(t)
+                    else:
+                        t.close()
+                except (OSError, ssl.SSLError):
+                    pass
+            ok, what = probe()
+            run.count("tls_liveness_probes")
+            if held and not ok:
+                run.violation("live/server-does-not-serve-next-connection", "%s (TLS, do_handshake_on_connect=%s): %d clients were served a "
+                              "'Connection: close' response and keep their sockets open without closing; the next client -> %s" % (
+                                  wc, sh["on_connect"], len(held), what), {"tls": wc, "on_connect": sh["on_connect"], "last_kind": "served-then-lingers"})
+            elif held:
+                # the probe was served after them: the server has long finished those responses
+                run.count("tls_served_then_lingering_clients", len(held))
+                still = [t for t in held if not tcp_closed(t, 5)]
+                if still:
+                    run.violation("live/connection-not-closed-after-final-response", "%s (TLS, do_handshake_on_connect=%s): %d of %d connections "
+                                  "whose last response (Connection: close) was delivered in full are still open at TCP level after a later "
+                                  "client was served - the server waits for the peer to close first" % (wc, sh["on_connect"], len(still), len(held)),
+                                  {"tls": wc, "on_connect": sh["on_connect"], "last_kind": "served-then-lingers"})
+            for t in held:
+                try:
+                    t.close()
+                except (OSError, ssl.SSLError):
+                    pass
+
         for k in range(sh["n"]):
             if run.enough(3):
                 break
             kind = kinds[k % len(kinds)]
             try:
+                if kind == "served-then-lingers":
+                    lingerers()
+                    run.case(("tls", wc, sh["on_connect"], kind, k))
+                    run.count("tls_inputs")
+                    run.count("tls_kind/" + kind)
+                    continue
                 c = socket.create_connection(srv.addr, 5)
                 rst = kind.endswith("-rst")
                 if kind.startswith("clear-text"):
@@ -590,7 +666,8 @@ def main(tier, seed):
     for i, c in enumerate(tls_classes if not q else ["sync", tls_classes[1 + seed % 3]]):
         for oc in (True, False):
             shards.append({"kind": "tls", "class": c, "on_connect": oc, "n": 45 if q else 360, "seed": seed, "tier": tier})
-    run.require("live_inputs", "live_liveness_probes", "live_mode/rst", "live_keepalive_hold_histories", "tls_inputs", "tls_liveness_probes")
+    run.require("live_inputs", "live_liveness_probes", "live_mode/rst", "live_keepalive_hold_histories", "tls_inputs", "tls_liveness_probes",
+                "tls_served_then_lingering_clients")
     run.assumptions = [
         "live sub-tier: 150 hostile / truncated / reset (SO_LINGER 0) connections per worker class against real servers over TCP; judged: "
         "the server keeps serving and no worker pid changes",
